@@ -190,3 +190,20 @@ Section Walk.
         end
     end.
 End Walk.
+
+(* Interpretation of a result of _bool_oper as a set of cells of the arrangement of the two boundaries
+   (the faces into which the edges of both polygons cut the sphere).  [enclosed l] is the set of cells to the
+   right of the closed node sequence l -- geometry, an oracle. *)
+Section Regions.
+  Variable cell : Type.
+  Definition region := cell -> bool.
+  Variable enclosed : list node -> region.
+  Definition oper_region (RA RB : region) (res : oper_result) : option region :=
+    match res with
+    | RNone => None
+    | RSelf => Some RA
+    | ROther => Some RB
+    | RPoly l => Some (enclosed l)
+    | RError _ => None
+    end.
+End Regions.
